@@ -25,7 +25,7 @@ fn main() {
         sets.push((vec![d.to_string()], false, false));
     }
     // ordered pairs
-    let small_special = ["CH1", "CH1?", "*RST", "*IDN?", "abc", "MY_val?", "MEASure:A", "MEASurement:Bb", "TRIGger", "TRIG_in", "TRIG1", "start", "stop", "ch1", "dev1", "ma\u{df}?", "MASS?"];
+    let small_special = ["CH1", "CH1?", "*RST", "*IDN?", "abc", "MY_val?", "MEASure:A", "MEASurement:Bb", "TRIGger", "TRIG_in", "TRIG1", "start", "stop", "ch1", "dev1", "ma\u{df}?", "MASS?", "BB", "TEST?", "TEst", "a:bb"];
     let mut pair_pool: Vec<String> = if thorough { p2.clone() } else { p1.clone() };
     pair_pool.extend(small_special.iter().map(|s| s.to_string()));
     for a in &pair_pool {
